@@ -224,6 +224,8 @@ class Reader:
             v = env.get(e.id)
             if isinstance(v, Poly):
                 return ('int', v)
+            if isinstance(v, tuple) and v[0] == 'SLICE':
+                return ('raw', v[1], v[2])
             if isinstance(v, tuple):
                 return v
         try:
@@ -233,7 +235,24 @@ class Reader:
         return ('expr', self.canon(e, env))
 
     def _dynamic_format(self, e, env):
-        """'>' + 'H' * n  -> ('>H', n Poly)"""
+        """'>' + 'H' * n  or  '>%dH' % n  -> ('>H', n Poly)"""
+        if isinstance(e, ast.BinOp) and isinstance(e.op, ast.Mod) and isinstance(e.left, ast.Constant) and isinstance(e.left.value, str):
+            import re
+            m = re.match(r'^([<>!]?)%d([A-Za-z])$', e.left.value)
+            if m and not isinstance(e.right, ast.Tuple):
+                try:
+                    return (('>' if m.group(1) in ('>', '!', '') else m.group(1)) + m.group(2), self.poly(e.right, env))
+                except NotInt:
+                    return None
+        if isinstance(e, ast.Call) and isinstance(e.func, ast.Attribute) and e.func.attr == 'format' and isinstance(e.func.value, ast.Constant) \
+                and isinstance(e.func.value.value, str) and len(e.args) == 1:
+            import re
+            m = re.match(r'^([<>!]?)\{\}([A-Za-z])$', e.func.value.value)
+            if m:
+                try:
+                    return (('>' if m.group(1) in ('>', '!', '') else m.group(1)) + m.group(2), self.poly(e.args[0], env))
+                except NotInt:
+                    return None
         if isinstance(e, ast.BinOp) and isinstance(e.op, ast.Add):
             pre = self.cx.ce.try_ev(e.left, self.fn.mod, self.cls)
             r = e.right
